@@ -183,8 +183,10 @@ def probe_coef_extraction(D, N, k, a):
     for d in range(D):
         match &= ((np.abs(wn[d]) - abs(k[d])) % N == 0) | ((np.abs(wn[d]) + abs(k[d])) % N == 0)
     bad = {}
-    for mode, want in (("coef_extraction", a), ("reconstruction", a / 2 ** sum(half[:-1])), ("norm_compensation", a / 2 ** sum(half))):
-        coef = np.asarray(sp.get_fourier_coefficients(jnp.asarray(u)[None], scaling_compensation_mode=mode, round=None))[0]
+    # "default": the call without the mode argument — documented to read the amplitude itself (coefficient extraction)
+    for mode, want in (("coef_extraction", a), ("reconstruction", a / 2 ** sum(half[:-1])), ("norm_compensation", a / 2 ** sum(half)), ("default", a)):
+        kw = {} if mode == "default" else {"scaling_compensation_mode": mode}
+        coef = np.asarray(sp.get_fourier_coefficients(jnp.asarray(u)[None], round=None, **kw))[0]
         got = coef[match]
         if got.size == 0 or np.max(np.abs(got - want)) > 1e-9 * abs(a) or np.max(np.abs(coef[~match])) > 1e-9 * abs(a):
             bad[mode] = {"want": want, "got": [complex(x).real for x in got][:8], "wavenumbers": [list(map(int, wn[:, i].ravel())) for i in [0]][:0]}
